@@ -170,6 +170,7 @@ type kase struct {
 	LL   []int  `json:"ll,omitempty"` // element indices
 	RL   []int  `json:"rl,omitempty"`
 	Fn   string `json:"fn,omitempty"`
+	Bare int    `json:"bare,omitempty"` // slices: 1 left elements without marker, 2 right, 3 both
 }
 
 func hasEqualSiblings(n gedcom.Node) bool {
@@ -349,12 +350,18 @@ func lists(maxLen int) [][]int {
 	return out
 }
 
-func buildList(idx []int, side string) gedcom.Nodes {
+func buildList(idx []int, side string) gedcom.Nodes { return buildListM(idx, side, true) }
+
+// buildListM: marked=false leaves the marker leaf out, so that elements can be leaves (a bare record or event
+// meeting its detailed counterpart); the marker accounting is then replaced by the Equals-path coverage alone.
+func buildListM(idx []int, side string, marked bool) gedcom.Nodes {
 	out := gedcom.Nodes{}
 	for i, e := range idx {
 		lines := append([]string{}, elements[e]...)
-		// marker leaf directly under the element root
-		lines = append([]string{lines[0], fmt.Sprintf("1 _M%s%d m", side, i)}, lines[1:]...)
+		if marked {
+			// marker leaf directly under the element root
+			lines = append([]string{lines[0], fmt.Sprintf("1 _M%s%d m", side, i)}, lines[1:]...)
+		}
 		out = append(out, buildOne(lines))
 	}
 	return out
@@ -417,8 +424,11 @@ func markers(n gedcom.Node) (l, r []string) {
 	return
 }
 
-func judgeSlices(ll, rl []int, fn string) (sig, what string) {
-	L, R := buildList(ll, "L"), buildList(rl, "R")
+func judgeSlices(ll, rl []int, fn string) (sig, what string) { return judgeSlicesB(ll, rl, fn, 0) }
+
+// bare: 0 both sides carry markers, 1 left elements bare, 2 right elements bare, 3 both
+func judgeSlicesB(ll, rl []int, fn string, bare int) (sig, what string) {
+	L, R := buildListM(ll, "L", bare&1 == 0), buildListM(rl, "R", bare&2 == 0)
 	l0, r0 := text(L), text(R)
 	var res gedcom.Nodes
 	if p, msg, frame := vlib.Try(func() { res = gedcom.MergeNodeSlices(L, R, gedcom.NewDocument(), mergeFns[fn]) }); p {
@@ -445,6 +455,35 @@ func judgeSlices(ll, rl []int, fn string) (sig, what string) {
 	}
 	if fn == "always" {
 		// number of merges possible = pairs with equal tags, greedy; at least: result no longer than never-merge and each merge pairs one L with one R
+	}
+	if bare != 0 {
+		// without markers: every input element is represented by a result element that equals it, with every
+		// child covered by an Equals path
+		for _, side := range []gedcom.Nodes{L, R} {
+			for _, e := range side {
+				ok := false
+				for _, h := range res {
+					// a merge function that merges whatever has the same tag identifies the two roots (as MergeNodes does)
+					byTag := (fn == "always" || fn == "same-tag-typed-nil") && h.Tag().Tag() == e.Tag().Tag()
+					if !eq(h, e) && !byTag {
+						continue
+					}
+					all := true
+					for _, c := range e.Nodes() {
+						if !pathCovered(c, h.Nodes()) {
+							all = false
+						}
+					}
+					if all {
+						ok = true
+					}
+				}
+				if !ok {
+					return "node-lost", fmt.Sprintf("input element %q is not represented in the result\n%s", e.GEDCOMLine(0), show)
+				}
+			}
+		}
+		return freshSlices(ll, rl, fn, bare, res, L, R, show)
 	}
 	// marker accounting
 	seen := map[string]int{}
@@ -521,6 +560,11 @@ func judgeSlices(ll, rl []int, fn string) (sig, what string) {
 			}
 		}
 	}
+	return freshSlices(ll, rl, fn, 0, res, L, R, show)
+}
+
+// freshSlices: the result is built from fresh nodes.
+func freshSlices(ll, rl []int, fn string, bare int, res, L, R gedcom.Nodes, show string) (sig, what string) {
 	if n := sharedNode(res, L, R); n != nil {
 		sig := "result-shares-node-with-input"
 		isRoot := false
@@ -535,7 +579,7 @@ func judgeSlices(ll, rl []int, fn string) (sig, what string) {
 		return sig, fmt.Sprintf("result contains input node %q by reference\n%s", n.GEDCOMLine(0), show)
 	}
 	leak := mutationLeak(func() (gedcom.Nodes, func() string) {
-		l, r := buildList(ll, "L"), buildList(rl, "R")
+		l, r := buildListM(ll, "L", bare&1 == 0), buildListM(rl, "R", bare&2 == 0)
 		m := gedcom.MergeNodeSlices(l, r, gedcom.NewDocument(), mergeFns[fn])
 		return m, func() string { return text(l) + "|" + text(r) }
 	})
@@ -636,6 +680,15 @@ func run(tier, unit string, r *vlib.Rec) {
 					if s, w := judgeSlices(ls[i], rl, fn); s != "" {
 						r.Fail(s, w, kase{Kind: "slices", LL: ls[i], RL: rl, Fn: fn})
 					}
+					if len(ls[i])+len(rl) <= 4 {
+						for bare := 1; bare <= 3; bare++ {
+							r.Eval()
+							r.Count("slices:bare")
+							if s, w := judgeSlicesB(ls[i], rl, fn, bare); s != "" {
+								r.Fail(s, w, kase{Kind: "slices", LL: ls[i], RL: rl, Fn: fn, Bare: bare})
+							}
+						}
+					}
 				}
 			}
 		}
@@ -657,7 +710,7 @@ func replay(c json.RawMessage) (string, string) {
 	case "nodes":
 		return judgeNodes(*k.L, *k.R)
 	case "slices":
-		return judgeSlices(k.LL, k.RL, k.Fn)
+		return judgeSlicesB(k.LL, k.RL, k.Fn, k.Bare)
 	}
 	return "", "error-path case; re-run the check"
 }
